@@ -103,6 +103,20 @@ def body_whole(sel: int) -> bool:
             return fail(f"{lang}: the returned text is not the printed text ({len(a)} vs {len(b)} lines; first differences {diff})")
         res[lang] = ret
     cpp, py = res["cpp"], res["py"]
+    # converting another file in between must not change what this file converts to (same language, A - B - A)
+    other = gen.write_tmp("other.txt", gen.text_of([gen.FAMILY[0]], gen.EVENT_TYPES[0], "D0_radius 2 0.5 0\nOtherPar 0 1.0 0.5\n"))
+    for lang in ("cpp", "py"):
+        try:
+            gen.reset_state()
+            gen.convert(other, lang, True)
+            gen.reset_state()
+            again, _ = gen.convert(fn, lang, True)
+        except Exception as e:
+            return fail(f"{fn}: converting again after another file raised {type(e).__name__}: {str(e)[:200]}")
+        if gen.strip_time(again) != gen.strip_time(res[lang]):
+            a, b = gen.strip_time(again).splitlines(), gen.strip_time(res[lang]).splitlines()
+            diff = [(x, y) for x, y in zip(a, b) if x != y][:2]
+            return fail(f"{lang}: the same file converts differently after another file was converted ({len(a)} vs {len(b)} lines, {diff})")
     # --- the Python output is valid Python and runs against the GooFit API (recording stand-in)
     try:
         code = compile(py, "<goofit python output>", "exec")
